@@ -102,6 +102,7 @@ type Path struct {
 	clockSec, clockNsec *Term // last clock reading (monotone clock model)
 	nextTag             string
 	blobs               []Iface // JSON identity codec snapshots
+	elemOrigin          map[*Value]elemRef
 	atomicDepth         int
 	preemptions         int
 	preemptBound        int
